@@ -33,6 +33,12 @@ CHECKS = {
             'the trace the same instance produces alone in a fresh process.',
             'Trusted: os.fork gives a pristine interpreter state; the trace covers all architectural state of vf/observe.py.',
             'DESIGN.md §2 C20'),
+    'C05': ('runtime monitoring: exhaustive condition truth table through the real condition_passed(); no-op diff '
+            'monitor for failing conditions; AL-equivalence monitor for passing ones',
+            'Reference-free: the 16x16 table in all condition sources is enumerated completely; every decoder path and '
+            'every Thumb-16 word is stepped with failing and passing conditions and the full state diff judged.',
+            'Trusted: the 16-entry condition table transcribed in vf/props/c05.py; the short list of Thumb classes that '
+            'are UNPREDICTABLE inside IT blocks.', 'DESIGN.md §2 C05'),
 }
 
 NOT_APPLICABLE = {}
